@@ -81,7 +81,7 @@ def items_str(items):
 def gen_pl(rng):
     ptype = rng.choice([1, 2, 2, 2, 3, 3])
     syms = rng.sample(SYM_POOL, rng.randint(1, 8))
-    items = gen_items(rng, ptype, rng.choice([0, 1, 1, 2, 2, 3, 4, 5, 6, 8]), names=syms)
+    items = gen_items(rng, ptype, rng.choice([1, 1, 2, 2, 3, 4, 5, 6, 8]), names=syms)
     defmod = rng.choice(["main", "t-abc", "mainprog"])
     lib = rng.choice(LIBPATHS)
     so = rng.choice(SONAMES)
@@ -342,7 +342,7 @@ def monitor_uf(desc, model_line, impl):
     diff = [i for i in range(len(code)) if code[i] != after[i]]
     if not diff:
         return None
-    lo = desc["addr"] if t[3] == "~" else int(t[3], 0)
+    lo = int(t[3], 0) if (desc["ty"] == "pg" and t[3] != "~") else desc["addr"]
     if any(i < lo or i >= lo + 6 for i in diff):
         return "unpatch wrote outside the 6 bytes at the site: %s" % diff
     if code[lo] != 0xe8 and code[lo:lo + 2] != b"\xff\x15":
@@ -469,9 +469,9 @@ static unsigned long cnt[%(n)d];
 typedef unsigned (*fn_t)(unsigned);
 static void dump_state(void)
 {
-	static const char *names[] = { %(names)s, "main" };
+	static const char *names[] = { %(names)s, "main", "dump_state" };
 	extern int main(int, char **);
-	void *fns[] = { %(fnptrs)s, (void *)main };
+	void *fns[] = { %(fnptrs)s, (void *)main, (void *)dump_state };
 	FILE *f = fopen("/proc/self/maps", "r");
 	char l[512];
 	unsigned long lo = 0, hi = 0;
@@ -486,7 +486,7 @@ static void dump_state(void)
 	}
 	if (f)
 		fclose(f);
-	for (i = 0; i < %(n)d + 1; i++) {
+	for (i = 0; i < %(n)d + 2; i++) {
 		unsigned char *p = fns[i];
 		fprintf(stderr, "FUNC %%s %%lx %%lu ", names[i], (unsigned long)p, i < %(n)d ? cnt[i] : 1UL);
 		for (j = 0; j < 16; j++)
@@ -651,7 +651,7 @@ def run_e2e(ctx, hexe, uft, failures, cov):
                     if len(t) == 2 and t[0].isdigit():
                         traced[t[1]] = int(t[0])
                 # the match relation from the real engines, the verdicts from the real list code
-                allnames = names + ["main"]
+                allnames = names + ["main", "dump_state"]
                 items = [(1 if o == "U" else 0, p, None) for o, p in opts]
                 pl = "pl %d %s %s ~ %s %d %s" % (PTYPES[ptype], hx(os.path.basename(exe)), hx(exe), items_str(items),
                                                 len(allnames), " ".join(hx(s) for s in allnames))
